@@ -78,6 +78,11 @@ func c18Layer(idx int, sh c18Shape) fstest.MapFS {
 
 // the same layer materialised on disk and served by os.DirFS: a real file system answers "not a directory"
 // (not fs.ErrNotExist) for a path below a regular file, and reports its own sizes and modes for directories
+// a file system with no method but Open
+type c18OpenOnly struct{ inner fs.FS }
+
+func (o c18OpenOnly) Open(name string) (fs.File, error) { return o.inner.Open(name) }
+
 func c18Disk(root string, idx int, m fstest.MapFS) fs.FS {
 	_ = os.MkdirAll(root, 0o755)
 	mt := time.Unix(int64(1000+idx*100), 0)
@@ -281,7 +286,11 @@ func runC18(r *Run) {
 				desc = append(desc, nil)
 				continue
 			}
-			if r.Rng.Intn(3) == 0 { // this layer is a directory on disk
+			if r.Rng.Intn(4) == 0 { // this layer offers Open and nothing else (an embed.FS, an fs.Sub result, a wrapper): it answers the same
+				fss = append(fss, c18OpenOnly{layerFS[pos][si]})
+				names = append(names, fmt.Sprintf("l%d_%d", pos, si))
+				r.Count("layer:open-only")
+			} else if r.Rng.Intn(3) == 0 { // this layer is a directory on disk
 				fss = append(fss, diskFS[pos][si])
 				names = append(names, fmt.Sprintf("k%d_%d", pos, si))
 				r.Count("layer:os.DirFS")
